@@ -332,13 +332,14 @@ func init() {
 			fs := ex.fs()
 			maxSteps := ex.concreteInt(args[1], "CrashWindow maxsteps")
 			fs.crashAt = ex.draw("crash-step", "int", 64, 0, uint64(maxSteps))
-			fs.partial = ex.draw("crash-partial", "int", 64, 0, 8)
+			fs.partial = ex.draw("crash-partial", "int", 64, 0, 1<<16)
 			// two values for the native replay (how to reproduce this crash
 			// with the real kernel), filled in when the window has run
 			metaAt := len(ex.draws)
 			ex.draws = append(ex.draws, DrawRec{Label: "crash-kind", Kind: "meta", W: 64, T: ex.ts.Const(64, 0)},
 				DrawRec{Label: "crash-arg", Kind: "meta", W: 64, T: ex.ts.Const(64, 0)})
 			fs.crashOn, fs.step, fs.crashedAt, fs.log = true, 0, 0, nil
+			fs.windows++
 			renames0 := fs.renames
 			_ = renames0
 			crashed := false
@@ -722,6 +723,30 @@ func (ex *Exec) sprintf(format Value, argv Value) (Str, Value) {
 		return ex.freshOpaque('?', 0, 1<<16, "format"), nil
 	}
 	f, ok := fs.Concrete()
+	if !ok && !fs.HasOpaque() {
+		// a format string with symbolic bytes (go-vise formats with constant
+		// strings; this is a line of data used as a format). Without a '%'
+		// among them the output is the format itself; with one, a single
+		// instance is explored (the path is marked partial).
+		bs := flatBytes(fs)
+		pct := ex.ts.False()
+		concPct := false
+		for _, b := range bs {
+			if b.IsConst() {
+				concPct = concPct || b.K == '%'
+			} else {
+				pct = ex.ts.Or(pct, ex.ts.Eq(b, ex.ts.Const(8, '%')))
+			}
+		}
+		if !concPct && !ex.branch(pct) {
+			return fs, nil
+		}
+		buf := make([]byte, len(bs))
+		for i, b := range bs {
+			buf[i] = byte(ex.concretizeOne(b, "fmt: format string with symbolic bytes and a '%' among them"))
+		}
+		f, ok = string(buf), true
+	}
 	if !ok {
 		return ex.freshOpaque('?', 0, 1<<16, "format"), nil
 	}
